@@ -184,7 +184,10 @@ def standard_scenario(src, cfg, nmembers, event_times, quiet=3.0, fault_apis=(),
                 run.cluster.logs[("t", n)] = simkafka.PartitionLog(run.cluster, "t", n)
                 run.cluster.leader[("t", n)] = run.cluster.nodes[n % len(run.cluster.nodes)]
                 append_record(run.cluster, ("t", n))
-        await asyncio.sleep(max(0.0, t0 + max(t for t, _, _ in timeline) + 0.3 - loop.time()))
+        active = max(t for t, _, _ in timeline) + 0.3
+        if ev == "cut_off_from_coordinator":
+            active += cfg.get("cut_off_for", 1.6) + 0.8  # records keep arriving while the member is away and after it is back
+        await asyncio.sleep(max(0.0, t0 + active - loop.time()))
         writer_on[0] = False
         run.quiet_from = loop.time()
         faults.enabled = False
